@@ -311,7 +311,7 @@ func (x *X) finishRun(res simrt.Result) {
 	}
 	switch {
 	case res.Deadlock != nil:
-		x.viol([]string{"C12"}, "hang.cycle", strings.Join(res.CycleSig, " || "), strings.Join(res.Deadlock, "\n"))
+		x.viol([]string{"C12"}, "hang.cycle", cycleSig(res.CycleSig), strings.Join(res.Deadlock, "\n"))
 	case res.OutOfSteps:
 		if out.Infra == "" {
 			out.Infra = "step budget exhausted"
@@ -344,6 +344,25 @@ func (x *X) finishRun(res simrt.Result) {
 		out.LogTail = append(out.LogTail, fmt.Sprintf("%d %s %s %s %s", e.N, e.Task, e.Op, strings.ReplaceAll(e.Path, x.root, ""), e.Err))
 	}
 	out.Fingerprint = x.fp
+}
+
+// cycleSig keeps the two innermost frames of every waiter of a wait-for cycle (sorted, distinct).
+func cycleSig(waiters []string) string {
+	seen := map[string]bool{}
+	var out []string
+	for _, w := range waiters {
+		f := strings.Split(w, "<")
+		if len(f) > 2 {
+			f = f[:2]
+		}
+		k := strings.Join(f, "<")
+		if !seen[k] {
+			seen[k] = true
+			out = append(out, k)
+		}
+	}
+	sort.Strings(out)
+	return strings.Join(out, " || ")
 }
 
 func stallSig(unf []string) string {
@@ -585,7 +604,7 @@ func TestVerif(t *testing.T) {
 			if os.Getenv("VERIF_DEBUG") != "" && !dbgSeen[v.Sig] {
 				dbgSeen[v.Sig] = true
 				fmt.Printf("DEBUG viol idx=%d seed=%d props=%v sig=%s op=%d\n   %s\n", idx, p.Seed, v.Props, v.Sig, v.OpIndex, v.Detail)
-				if len(p.Clients) > 0 && v.OpIndex < len(p.Clients[0]) {
+				if len(p.Clients) > 0 && v.OpIndex >= 0 && v.OpIndex < len(p.Clients[0]) {
 					fmt.Printf("   op: %s\n", p.Clients[0][v.OpIndex])
 				}
 				kb, _ := json.Marshal(p.Knobs)
